@@ -35,7 +35,7 @@ func numericRuleConfigs(kind string, thorough bool) [][2]string {
 		bounds = append(bounds, "9007199254740993") // 2^53+1
 	}
 	if isFloat {
-		bounds = append(bounds, "0.5", "-2.25")
+		bounds = append(bounds, "0.5", "-2.25", "0.1") // 0.1 is not representable: float and double round it differently
 	}
 	for _, b := range bounds {
 		for _, op := range []string{"gt", "gte", "lt", "lte"} {
@@ -124,6 +124,11 @@ func RuleSpecs(thorough bool) ([]*spec.Spec, map[string][]RuleCase) {
 		s("rule=min_len+max_len,bound=2..4", "min_len:2 max_len:4")
 		s("rule=const,bound=abc", `const:"abc"`)
 		s("rule=in,bound=a|bc", `in:["a","bc"]`)
+		// members that read as another YAML / JSON type when written plainly
+		s("rule=in,bound=lookalikes", `in:["123","true","null","1e3","yes","~","0x1F"]`)
+		s("rule=const,bound=lookalike_number", `const:"123"`)
+		s("rule=const,bound=lookalike_bool", `const:"true"`)
+		s("rule=const,bound=lookalike_null", `const:"null"`)
 		s("rule=pattern,bound=digits5", `pattern:"^[0-9]{5}$"`)
 		s("rule=pattern,bound=unanchored", `pattern:"ab+c"`)
 		s("rule=pattern,bound=alnum", `pattern:"^[a-z][a-z0-9_]*$"`)
